@@ -334,6 +334,8 @@ def reference_paths(source: str, params=None, like=None, repo=None):
     """Paths of a reference model; with `like` (the implementation's FuncInfo) its calls are put into the same positional
     spelling as the parsed repository (sa.callnorm), in the implementation's class/module context."""
     fn = ast.parse(source.strip("\n")).body[0]
+    normal._allany_pass(fn)
+    normal._redundant_guard_pass(fn)
     if like is not None and repo is not None:
         from .. import callnorm
 
